@@ -5,6 +5,7 @@ from __future__ import annotations
 import itertools
 import os
 
+from . import common
 from .common import Check, fmt_ints, fmt_matrix, kv
 
 NAMES = ["binCount", "lastEmpty", "empty", "lastSmall", "small", "lastSkyline", "lowestSkyline"]
@@ -530,5 +531,26 @@ def check(ck: Check) -> None:
         "C03); it is unconditional for lbBins = lbGeo I (obj_within_bounds_geo)",
         "the number of rounds of the skyline sweep (<= 2n+1) is not stated; termination is proved (strict progress of cur_left)",
     ]
-    ck.lean(["Props.C02"], THEOREMS)
+    modules, theorems = ["Props.C02"], list(THEOREMS)
+    # tie between source and model: lean/Gen/BinCountAnd*.lean are regenerated from the CURRENT source of the four
+    # for-loop-only objective kernels and Props/C02Gen*.lean prove each equal to its hand-written model for all inputs
+    # (the two skyline kernels contain a `while` loop: outside the translator's subset, hand-written model only)
+    gen_theorems = {"BinCountAndLastEmpty": "C02Gen.bin_count_and_last_empty_eq_model",
+                    "BinCountAndEmpty": "C02Gen.bin_count_and_empty_eq_model",
+                    "BinCountAndLastSmall": "C02Gen.bin_count_and_last_small_eq_model",
+                    "BinCountAndSmall": "C02Gen.bin_count_and_small_eq_model"}
+    try:
+        from .translate import loop2lean
+        ck.gen_begin()   # released at the end of ck.lean
+        res = loop2lean.emit_binobj(common.REPO, common.LEAN)
+    except Exception as e:  # noqa: BLE001
+        res = {k: e for k in gen_theorems}
+    for key, err in res.items():    # one Props module per generated kernel: a change of one kernel leaves the others checked
+        if err is None:
+            modules.append("Props.C02Gen" + key[len("BinCountAnd"):])
+            theorems.append(gen_theorems[key])
+        else:   # source outside the translatable subset: the obligation cannot be regenerated
+            ck.proof_failures.append(f"translator loop2lean: {key} is not translatable, the theorem {gen_theorems[key]} "
+                                     f"could not be re-checked against the source: {err!r}")
+    ck.lean(modules, theorems)
     streams(ck)
